@@ -1473,7 +1473,7 @@ BW_MidiSequencer::MidiEvent BW_MidiSequencer::parseEvent(const uint8_t **pptr, c
     if(byte == MidiEvent::T_SYSEX || byte == MidiEvent::T_SYSEX2) // Ignore SysEx
     {
         uint64_t length = readVarLenEx(pptr, end, ok);
-        if(!ok || (ptr + length > end))
+        if(!ok || (length > static_cast<uint64_t>(end - ptr)))
         {
             m_parsingErrorsString += "parseEvent: Can't read SysEx event - Unexpected end of track data.\n";
             evt.isValid = 0;
@@ -1498,7 +1498,7 @@ BW_MidiSequencer::MidiEvent BW_MidiSequencer::parseEvent(const uint8_t **pptr, c
         }
         uint8_t  evtype = *(ptr++);
         uint64_t length = readVarLenEx(pptr, end, ok);
-        if(!ok || (ptr + length > end))
+        if(!ok || (length > static_cast<uint64_t>(end - ptr)))
         {
             m_parsingErrorsString += "parseEvent: Can't read Special event - Unexpected end of track data.\n";
             evt.isValid = 0;
